@@ -14,7 +14,11 @@ def faultOf (s : String) : R Fault :=
 
 def handle (j : Json) : R Json := do
   let faults ← (← getArr j "faults").toList.mapM (fun x => do faultOf (← asStr x))
-  let fixed := getBoolD j "fixed" repaired
+  -- "fixed": true / false overrides both switches; default = what the source has on this run
+  let fixed : Fix := match j.getObjVal? "fixed" with
+    | .ok (.bool true) => Fix.all
+    | .ok (.bool false) => Fix.none
+    | _ => repaired
   -- after each fault: is the client wedged (deaf, spinning)? then the next operation
   let (s, wedged) := faults.foldl (fun (acc : CL × Bool) f =>
     let s1 := fault fixed acc.1 f
